@@ -569,6 +569,17 @@ func SchemaMutations() []SchemaMutation {
 			t.Dirs = append(t.Dirs, model.DirUse{Name: "noArgDirZz", Args: []model.Arg{{Name: "nopeArgZz", Value: int64(3)}}})
 			return "nopeArgZz", true
 		}},
+		{"builtin-directive-undeclared-arg", func(r *rand.Rand, s *model.Schema) (string, bool) {
+			// a directive every root knows before the document is read (the parser looks such a use up at once)
+			for _, t := range s.Types {
+				if t.Kind == model.Enum && len(t.Values) > 0 {
+					v := t.Values[r.Intn(len(t.Values))]
+					v.Dirs = append(v.Dirs, model.DirUse{Name: "deprecated", Args: []model.Arg{{Name: "reason", Value: "old"}, {Name: "nopeArgZz", Value: "x"}}})
+					return "nopeArgZz", true
+				}
+			}
+			return "", false
+		}},
 		{"directive-required-argument-omitted", func(r *rand.Rand, s *model.Schema) (string, bool) {
 			// the use leaves out an argument that is non-null and has no default (the other one is given)
 			s.Dirs = append(s.Dirs, &model.DirDef{Name: "needArgZz", On: []string{"OBJECT", "ENUM", "INTERFACE", "UNION", "INPUT_OBJECT", "SCALAR", "ENUM_VALUE"},
